@@ -31,7 +31,7 @@ ASSUMPTIONS = [
     "format-4 instance flags kerning/info are left at their default True in the main generator (False is a separate, reported finding)",
     "GLIF notes are generated in the writer's normal form (lines stripped, no blank lines); notes are compared after that normalisation on both sides",
     "GLIF 1 records only use GLIF 1 features (no identifiers/image/guidelines, named anchors) except in dedicated down-conversion classes",
-    "case-insensitive equality of file names is Unicode default caseless matching: str.casefold()",
+    "case-insensitive equality of file names is simple (one-to-one, per character) Unicode case folding, as implemented by the upper-case tables of NTFS/HFS+; multi-character foldings (sharp s/ss, fi ligature) are not identified",
     "reserved DOS device names: CON PRN AUX NUL CLOCK$ COM1-9 LPT1-9, in any dot-separated part",
     "axis-map inverse: exact for integral knots below 2^26, otherwise within 32*2^-52*M*S^2 (M largest magnitude, S largest slope or inverse slope)",
     "stdlib plistlib and xml.etree are trusted as independent readers; Fraction arithmetic is exact",
